@@ -37,65 +37,108 @@ Proof.
 Qed.
 
 Definition KInv (s : kstate) : Prop :=
+  (forall p, In p (pools s) -> k_connks p = k_srv p) /\
   if started s then
+    sess_ks s = 2 /\
     (forall i, In i (remaining s) <-> exists p, nth_error (pools s) i = Some p /\ k_pending p = true) /\
-    (forall p, In p (pools s) -> k_ks p = 2 /\
+    (forall p, In p (pools s) -> (k_ks p = 2 \/ k_legacy p = true) /\
        (k_pending p = false -> k_has p = true -> k_shut p = false -> k_connks p = 2 \/ k_failed p = true)) /\
     (forall i p, nth_error (pools s) i = Some p -> k_failed p = true -> In i (map fst (errors s))) /\
     ((remaining s <> [] /\ calls s = []) \/ (remaining s = [] /\ calls s = [errors s]))
   else
     calls s = [] /\ remaining s = [] /\ forall p, In p (pools s) -> k_pending p = false /\ k_failed p = false.
 
-Lemma KInv_init outs : KInv (kinit outs).
+(* well-formed starting point of a switch *)
+Definition kwf (s : kstate) : Prop :=
+  started s = false /\ calls s = [] /\ remaining s = [] /\
+  forall p, In p (pools s) -> k_pending p = false /\ k_failed p = false /\ k_connks p = k_srv p.
+
+Lemma KInv_wf s : kwf s -> KInv s.
+Proof. intros (St&Hc&Hr&Hp). unfold KInv. rewrite St. split; [intros p H; apply Hp, H|]. repeat split; auto; apply Hp; assumption. Qed.
+
+Lemma kwf_init outs : kwf (kinit outs).
 Proof.
-  unfold KInv, kinit; simpl. repeat split; auto.
-  - apply in_map_iff in H. destruct H as (o&<-&_). destruct o; reflexivity.
-  - apply in_map_iff in H. destruct H as (o&<-&_). destruct o; reflexivity.
+  unfold kwf, kinit; simpl. repeat split; auto;
+  apply in_map_iff in H; destruct H as (o&<-&_); destruct o; reflexivity.
 Qed.
 
-Lemma start_pool_ok p : k_failed p = false ->
-  k_ks (start_pool p) = 2 /\ k_failed (start_pool p) = false /\
+Lemma KInv_init outs : KInv (kinit outs).
+Proof. apply KInv_wf, kwf_init. Qed.
+
+Lemma In_reset_pools ps : forall outs q, In q (reset_pools ps outs) -> exists p o, In p ps /\ q = reset_pool p o.
+Proof.
+  induction ps as [|p ps IH]; intros outs q H; [destruct outs; destruct H|].
+  destruct outs as [|o outs]; simpl in H; destruct H as [<-|H].
+  - exists p, (k_out p). split; [left|]; reflexivity.
+  - destruct (IH _ _ H) as (p'&o'&Hp&Hq). exists p', o'. split; [right|]; assumption.
+  - exists p, o. split; [left|]; reflexivity.
+  - destruct (IH _ _ H) as (p'&o'&Hp&Hq). exists p', o'. split; [right|]; assumption.
+Qed.
+
+Lemma kwf_reinit s outs : KInv s -> kwf (reinit s outs).
+Proof.
+  intros [G _]. unfold kwf, reinit; simpl. repeat split; auto;
+  destruct (In_reset_pools _ _ _ H) as (q&o&Hq&->); simpl; auto.
+Qed.
+
+Lemma start_pool_ok p : k_failed p = false -> k_connks p = k_srv p ->
+  (k_ks (start_pool p) = 2 \/ k_legacy (start_pool p) = true) /\ k_failed (start_pool p) = false /\
+  k_connks (start_pool p) = k_srv (start_pool p) /\
   (k_pending (start_pool p) = false -> k_has (start_pool p) = true -> k_shut (start_pool p) = false -> k_connks (start_pool p) = 2).
 Proof.
-  intros Hf. unfold start_pool.
-  destruct (k_shut p) eqn:S, (k_has p) eqn:Hh; simpl; try (repeat split; auto; intros; congruence).
-  destruct (k_connks p =? 2) eqn:E; simpl; repeat split; auto; intros; try congruence.
+  intros Hf Hs. unfold start_pool.
+  destruct (k_legacy p) eqn:L, (k_has p) eqn:Hh, (k_shut p) eqn:S; simpl;
+    try (repeat split; auto; intros; congruence);
+    destruct (k_connks p =? 2) eqn:E; simpl; repeat split; auto; intros; try congruence;
+    apply Z.eqb_eq in E; congruence.
 Qed.
 
 Lemma KInv_step s o : KInv s -> KInv (kstep s o).
 Proof.
-  intros H. destruct o as [|i]; simpl.
+  intros [G H]. destruct o as [|i|i]; simpl.
   - (* KStart *)
-    unfold KInv in H. destruct (started s) eqn:St; [unfold KInv; rewrite St; exact H|].
-    destruct H as (Hc&Hr&Hp). unfold KInv; simpl. repeat split.
+    destruct (started s) eqn:St; [split; [exact G|rewrite St; exact H]|].
+    destruct H as (Hc&Hr&Hp).
+    assert (SP : forall q, In q (pools s) -> (k_ks (start_pool q) = 2 \/ k_legacy (start_pool q) = true) /\ k_failed (start_pool q) = false /\
+                  k_connks (start_pool q) = k_srv (start_pool q) /\
+                  (k_pending (start_pool q) = false -> k_has (start_pool q) = true -> k_shut (start_pool q) = false -> k_connks (start_pool q) = 2)).
+    { intros q Hq. apply start_pool_ok; [apply Hp, Hq|apply G, Hq]. }
+    unfold KInv; simpl. split.
+    { intros p Hin. apply in_map_iff in Hin. destruct Hin as (q&<-&Hq). apply (SP q Hq). }
+    repeat split.
     + intros Hi. apply pending_from_spec in Hi. destruct Hi as [_ Hi]. rewrite Nat.sub_0_r in Hi. exact Hi.
     + intros Hi. apply pending_from_spec. split; [lia|]. rewrite Nat.sub_0_r. exact Hi.
-    + apply in_map_iff in H. destruct H as (q&<-&Hq). apply start_pool_ok. apply Hp, Hq.
-    + apply in_map_iff in H. destruct H as (q&<-&Hq). intros. left. apply start_pool_ok; auto. apply Hp, Hq.
+    + apply in_map_iff in H. destruct H as (q&<-&Hq). apply (SP q Hq).
+    + apply in_map_iff in H. destruct H as (q&<-&Hq). intros. left. apply (SP q Hq); assumption.
     + intros j p Hn Hf. rewrite nth_error_map in Hn. destruct (nth_error (pools s) j) eqn:E; [|discriminate].
-      injection Hn as <-. apply nth_error_In in E. destruct (start_pool_ok k (proj2 (Hp k E))) as (_&Hx&_). congruence.
+      injection Hn as <-. apply nth_error_In in E. destruct (SP k E) as (_&Hx&_). congruence.
     + destruct (pending_from 0 (map start_pool (pools s))); [right; auto|left; split; [discriminate|reflexivity]].
   - (* KComplete *)
-    destruct (nth_error (pools s) i) as [p|] eqn:En; [|exact H].
-    destruct (k_pending p) eqn:Ep; [|exact H].
+    destruct (nth_error (pools s) i) as [p|] eqn:En; [|split; assumption].
+    destruct (k_pending p) eqn:Ep; [|split; assumption].
     destruct (complete_pool p) as [p' err] eqn:Ec.
-    unfold KInv in *. simpl. destruct (started s) eqn:St.
-    2:{ destruct H as (_&_&Hp). apply nth_error_In in En. destruct (Hp p En). congruence. }
-    destruct H as (Ha&Hb&Hcc&Hd).
-    assert (Hp' : k_pending p' = false /\ k_ks p' = k_ks p /\
+    assert (Hp' : k_pending p' = false /\ k_ks p' = k_ks p /\ k_legacy p' = k_legacy p /\
+                  (k_connks p = k_srv p -> k_connks p' = k_srv p') /\
                   (k_has p' = true -> k_shut p' = false -> k_connks p' = 2 \/ k_failed p' = true) /\
                   (k_failed p' = true -> err <> None \/ k_failed p = true)).
     { unfold complete_pool in Ec. destruct (k_out p); injection Ec as <- <-; simpl; repeat split; auto; intros; try discriminate; auto; left; discriminate. }
-    destruct Hp' as (P1&P2&P3&P4).
+    destruct Hp' as (P1&P2&PL&PS&P3&P4).
+    unfold KInv in *. simpl. split.
+    { intros q Hq. destruct (In_nth_error _ _ Hq) as (j&Hj). rewrite nth_error_upd in Hj. destruct (Nat.eqb j i) eqn:E.
+      - rewrite (proj1 (Nat.eqb_eq _ _) E), En in Hj. simpl in Hj. injection Hj as <-. apply PS, G. apply nth_error_In in En. exact En.
+      - apply nth_error_In in Hj. apply G, Hj. }
+    destruct (started s) eqn:St.
+    2:{ destruct H as (_&_&Hp). apply nth_error_In in En. destruct (Hp p En). congruence. }
+    destruct H as (Hk&Ha&Hb&Hcc&Hd).
     assert (Hi : In i (remaining s)) by (apply Ha; eauto).
-    repeat split.
+    split; [exact Hk|]. repeat split.
     + intros Hj. apply In_del in Hj. destruct Hj as [N Hj]. apply Ha in Hj. destruct Hj as (q&Hq&Hqp).
       exists q. rewrite nth_error_upd. apply Nat.eqb_neq in N. rewrite N. auto.
     + intros (q&Hq&Hqp). rewrite nth_error_upd in Hq. destruct (Nat.eqb i0 i) eqn:E.
       * rewrite (proj1 (Nat.eqb_eq _ _) E), En in Hq. simpl in Hq. injection Hq as <-. congruence.
       * apply In_del. apply Nat.eqb_neq in E. split; [assumption|]. apply Ha. eauto.
     + destruct (In_nth_error _ _ H) as (j&Hj). rewrite nth_error_upd in Hj. destruct (Nat.eqb j i) eqn:E.
-      * rewrite (proj1 (Nat.eqb_eq _ _) E), En in Hj. simpl in Hj. injection Hj as <-. rewrite P2.
+      * rewrite (proj1 (Nat.eqb_eq _ _) E), En in Hj. simpl in Hj. injection Hj as <-. rewrite P2, PL.
         apply nth_error_In in En. apply Hb, En.
       * apply nth_error_In in Hj. apply Hb, Hj.
     + destruct (In_nth_error _ _ H) as (j&Hj). rewrite nth_error_upd in Hj. destruct (Nat.eqb j i) eqn:E.
@@ -108,24 +151,54 @@ Proof.
       * destruct err as [e|]; [apply In_eins; right|]; apply (Hcc j q Hq Hf).
     + destruct Hd as [[_ Hcl]|[Hre _]]; [|rewrite Hre in Hi; destruct Hi].
       rewrite Hcl. destruct (del i (remaining s)); [right; split; reflexivity|left; split; [discriminate|reflexivity]].
+  - (* KReconnect *)
+    destruct (nth_error (pools s) i) as [p|] eqn:En; [|split; assumption].
+    destruct (negb (k_has p) && negb (k_shut p) && negb (k_pending p)) eqn:Eg; [|split; assumption].
+    apply andb_prop in Eg. destruct Eg as [Eg Epn]. apply andb_prop in Eg. destruct Eg as [Eh Es].
+    apply negb_true_iff in Eh, Es, Epn.
+    set (p' := reconnect_pool (sess_ks s) p).
+    assert (Hsame : forall j q, nth_error (upd i (fun _ => p') (pools s)) j = Some q -> (j = i /\ q = p') \/ (j <> i /\ nth_error (pools s) j = Some q)).
+    { intros j q Hq. rewrite nth_error_upd in Hq. destruct (Nat.eqb j i) eqn:E.
+      - apply Nat.eqb_eq in E. subst j. rewrite En in Hq. simpl in Hq. injection Hq as <-. left; auto.
+      - apply Nat.eqb_neq in E. right; auto. }
+    unfold KInv in *. simpl. split.
+    { intros q Hq. destruct (In_nth_error _ _ Hq) as (j&Hj). destruct (Hsame _ _ Hj) as [[_ ->]|[_ Hj']]; [reflexivity|].
+      apply nth_error_In in Hj'. apply G, Hj'. }
+    destruct (started s) eqn:St.
+    + destruct H as (Hk&Ha&Hb&Hcc&Hd). split; [exact Hk|]. repeat split.
+      * intros Hj. apply Ha in Hj. destruct Hj as (q&Hq&Hqp). exists q. rewrite nth_error_upd.
+        destruct (Nat.eqb i0 i) eqn:E; [|auto]. apply Nat.eqb_eq in E. subst i0. congruence.
+      * intros (q&Hq&Hqp). destruct (Hsame _ _ Hq) as [[_ ->]|[_ Hq']]; [discriminate|]. apply Ha. eauto.
+      * destruct (In_nth_error _ _ H) as (j&Hj). destruct (Hsame _ _ Hj) as [[_ ->]|[_ Hj']].
+        -- simpl. apply nth_error_In in En. apply Hb, En.
+        -- apply nth_error_In in Hj'. apply Hb, Hj'.
+      * destruct (In_nth_error _ _ H) as (j&Hj). destruct (Hsame _ _ Hj) as [[_ ->]|[_ Hj']].
+        -- intros _ _ _. left. simpl. apply nth_error_In in En. destruct (proj1 (Hb p En)) as [K|L]; [|rewrite L; exact Hk].
+           destruct (k_legacy p); [exact Hk|exact K].
+        -- apply nth_error_In in Hj'. apply Hb, Hj'.
+      * intros j q Hq Hf. destruct (Hsame _ _ Hq) as [[-> ->]|[_ Hq']]; [apply (Hcc i p En Hf)|apply (Hcc j q Hq' Hf)].
+      * exact Hd.
+    + destruct H as (Hc&Hr&Hp). repeat split; auto;
+      destruct (In_nth_error _ _ H) as (j&Hj); destruct (Hsame _ _ Hj) as [[_ ->]|[_ Hj']]; simpl;
+        try (apply nth_error_In in En; apply Hp, En); try reflexivity; apply nth_error_In in Hj'; apply Hp, Hj'.
 Qed.
 
 Lemma KInv_run ops : forall s, KInv s -> KInv (krun s ops).
 Proof. unfold krun. induction ops as [|o r IH]; intros s H; simpl; [exact H|]. apply IH, KInv_step, H. Qed.
 
 Lemma calls_started s : KInv s -> calls s <> [] -> started s = true.
-Proof. unfold KInv. destruct (started s); [reflexivity|]. intros (H&_) N. congruence. Qed.
+Proof. unfold KInv. destruct (started s); [reflexivity|]. intros (_&H&_) N. congruence. Qed.
 
 Lemma k_success s : KInv s -> In [] (calls s) ->
   forall p, In p (pools s) -> k_shut p = false ->
-  (k_has p = true -> k_connks p = 2) /\ (k_has p = false -> k_ks p = 2).
+  (k_has p = true -> k_srv p = 2) /\ (k_has p = false -> k_legacy p = false -> k_ks p = 2).
 Proof.
   intros H Hin p Hp Hs. pose proof (calls_started s H ltac:(intros E; rewrite E in Hin; destruct Hin)) as St.
-  unfold KInv in H. rewrite St in H. destruct H as (Ha&Hb&Hc&Hd).
+  destruct H as [G H]. rewrite St in H. destruct H as (Hk&Ha&Hb&Hc&Hd).
   destruct Hd as [[_ E]|[Hr E]]; [rewrite E in Hin; destruct Hin|].
   rewrite E in Hin. destruct Hin as [He|[]].
-  destruct (Hb p Hp) as [Hk Hq]. split; [|intros; exact Hk].
-  intros Hh. destruct (In_nth_error _ _ Hp) as (j&Hj).
+  destruct (Hb p Hp) as [Hks Hq]. split; [|intros _ L; destruct Hks; congruence].
+  intros Hh. rewrite <- (G p Hp). destruct (In_nth_error _ _ Hp) as (j&Hj).
   assert (k_pending p = false).
   { destruct (k_pending p) eqn:E2; [|reflexivity]. assert (In j (remaining s)) by (apply Ha; eauto). rewrite Hr in H. destruct H. }
   destruct (Hq H Hh Hs) as [?|Hf]; [assumption|].
@@ -136,7 +209,7 @@ Lemma k_error_reported s : KInv s -> forall i p, nth_error (pools s) i = Some p 
   forall a, In a (calls s) -> In i (map fst a).
 Proof.
   intros H i p Hn Hf a Hin. pose proof (calls_started s H ltac:(intros E; rewrite E in Hin; destruct Hin)) as St.
-  unfold KInv in H. rewrite St in H. destruct H as (_&_&Hc&Hd).
+  destruct H as [_ H]. rewrite St in H. destruct H as (_&_&_&Hc&Hd).
   destruct Hd as [[_ E]|[_ E]]; rewrite E in Hin; [destruct Hin|destruct Hin as [<-|[]]]. eauto.
 Qed.
 
@@ -144,7 +217,7 @@ Lemma k_completes s : KInv s -> started s = true ->
   (length (calls s) <= 1)%nat /\
   ((forall p, In p (pools s) -> k_pending p = false) -> length (calls s) = 1%nat).
 Proof.
-  intros H St. unfold KInv in H. rewrite St in H. destruct H as (Ha&_&_&Hd). split.
+  intros [_ H] St. rewrite St in H. destruct H as (_&Ha&_&_&Hd). split.
   - destruct Hd as [[_ E]|[_ E]]; rewrite E; simpl; lia.
   - intros Hall. destruct Hd as [[N _]|[_ E]]; [|rewrite E; reflexivity].
     destruct (remaining s) as [|j r] eqn:R; [congruence|].
@@ -155,14 +228,16 @@ Lemma started_after_start ops s : started (krun (kstep s KStart) ops) = true.
 Proof.
   assert (forall ops s, started s = true -> started (krun s ops) = true).
   { unfold krun. induction ops0 as [|o r IH]; intros s0 H; simpl; [exact H|]. apply IH.
-    destruct o; simpl; [rewrite H; exact H|].
-    destruct (nth_error (pools s0) i); [|exact H]. destruct (k_pending k); [|exact H]. destruct (complete_pool k). exact H. }
+    destruct o; simpl; [rewrite H; exact H| |].
+    - destruct (nth_error (pools s0) i); [|exact H]. destruct (k_pending k); [|exact H]. destruct (complete_pool k). exact H.
+    - destruct (nth_error (pools s0) i); [|exact H]. destruct (negb (k_has k) && negb (k_shut k) && negb (k_pending k)); exact H. }
   apply H. simpl. destruct (started s) eqn:E; [exact E|reflexivity].
 Qed.
 
-Lemma catchup_eq rounds : forall pool sess n, fst (fst (catchup pool sess n rounds)) = snd (fst (catchup pool sess n rounds)).
+Lemma catchup_eq rounds : forall pool sess n b p s m, catchup pool sess n rounds = (b, p, s, m) -> b = true -> p = s.
 Proof.
-  induction rounds as [|r rest IH]; intros pool sess n; simpl.
-  - destruct (pool =? sess) eqn:E; simpl; [apply Z.eqb_eq, E|reflexivity].
-  - destruct (pool =? sess) eqn:E; simpl; [apply Z.eqb_eq, E|apply IH].
+  induction rounds as [|[f r] rest IH]; intros pool sess n b p s m; simpl.
+  - destruct (pool =? sess) eqn:E; intros H _; injection H as <- <- <- <-; [apply Z.eqb_eq, E|reflexivity].
+  - destruct (pool =? sess) eqn:E; [intros H _; injection H as <- <- <- <-; apply Z.eqb_eq, E|].
+    destruct f; [intros H Hb; injection H as <- _ _ _; discriminate|apply IH].
 Qed.
